@@ -35,7 +35,7 @@ def last_rc(run) -> int:
 
 
 def side(run):
-    return {"state": run["final_state"], "disk": disk_ev(run["disk"]), "rc": last_rc(run)}
+    return {"state": run["final_state"], "disk": disk_ev(run["disk"]), "rc": last_rc(run), "dup": run.get("dups", [])}
 
 
 def executed_steps(events):
